@@ -10,9 +10,9 @@ using namespace net;
 static unsigned mask_for(const std::string &prop)
 {
   if (prop == "C07")
-    return O_N1 | O_N2 | O_N3 | O_N4 | O_N10 | O_X;
+    return O_N1 | O_N2 | O_N3 | O_N4 | O_N10 | O_N11 | O_X;
   if (prop == "C08")
-    return O_N5_LRA | O_N5_DL | O_N5_OV | O_N1 | O_N9_DL | O_N10 | O_X;
+    return O_N5_LRA | O_N5_DL | O_N5_OV | O_N1 | O_N9_DL | O_N10 | O_N11 | O_X;
   if (prop == "C09")
     return O_N6 | O_N4_LRA | O_N2 | O_N10 | O_X;
   if (prop == "C10")
@@ -75,6 +75,10 @@ static void run_cmd(const sim::Cmd &c, sim::Out &out)
     sig = sim::fnv64(op.text(), sig);
   Run run(seed, mask_for(prop), verbose);
   out.flush();
+  { // what fresh heap blocks hold is part of the simulated environment too: zero, 0xff, 0x5a or whatever was there before
+    static const int fills[] = {-1, 0x00, 0xff, 0x5a};
+    sim::layout::set_poison(static_cast<int>(c.num("poison", fills[sim::Rng(seed).derive("poison").below(4)])));
+  }
   sim::layout::start(sim::Rng(seed).derive("layout").next(), rp.layout_random, 0);
   run.setup(rp.dl_size, rp.th_mask, rp.th_order);
   run.exec(ops);
